@@ -1,5 +1,4 @@
--- imports ParamNeverWrong_proof.lean (Probe.C06All)
-import Probe.C06All
+import ParamNeverWrong_proof
 /-! C06 `no_panic`: for every combination the parser's style table admits (spaceDelimited is refused earlier as not
     implemented) and every value of the configured shape, neither codec panics — apart from the one class P1/D13
     (path parameter, object with no fields) that the planned `fix:` turns into an encoder error. -/
